@@ -22,9 +22,6 @@ def volOf (r : Raw) : Vol :=
 def nextVol (v : Vol) (total : Nat) (files : List FileRec) (free : List Nat) : Vol :=
   { lo := 0, hi := total, sys := v.sys, files := files, freeUnits := free, label := v.label }
 
-theorem unitAt_congr {r r' : Raw} {j : Nat} (h : r'.units[j]? = r.units[j]?) : unitAt r' j = unitAt r j := by
-  unfold unitAt; rw [h]
-
 theorem volOf_eq {r : Raw} {v : Vol} (h : Read.ProdosT.read r = .ok v) : volOf r = v := by unfold volOf; rw [h]
 
 theorem nbmOf_pos {t : Nat} (h : 6 ≤ t) : 0 < nbmOf t := by unfold nbmOf; omega
@@ -147,39 +144,34 @@ theorem entryAt_bytes (blk : Bytes) (k : Nat) (h : ∀ x ∈ blk, x < 256) : ∀
   unfold entryAt slice at hx
   exact h x (List.mem_of_mem_drop (List.mem_of_mem_take hx))
 
-/-- in a volume without sub-directories no slot matches a search for a sub-directory entry -/
-theorem no_dir_hit {r : Raw} {ch : List Nat} (hroot : Root r ch) (nm : Bytes) (hl : nm.length ≤ 15) :
-    (dirSlots r 2 ch).find? (isHit [stSubDirEntry] nm) = none := by
-  rw [List.find?_eq_none]
-  intro x hx hhit
-  unfold isHit at hhit
-  simp only [Bool.and_eq_true] at hhit
-  obtain ⟨hact, hm⟩ := hhit
+/-- the slot a search for a sub-directory entry finds holds a directory entry -/
+theorem dir_hit_is_dir {r : Raw} {ch : List Nat} (nm : Bytes) (hl : nm.length ≤ 15) (x : Bytes × Nat × Nat)
+    (h : isHit [stSubDirEntry] nm x = true) : x.1.getD 0 0 / 16 = 0xD ∧ x.1.getD 0 0 = 0xD * 16 + nm.length := by
+  unfold isHit at h
+  simp only [Bool.and_eq_true] at h
+  obtain ⟨hact, hm⟩ := h
   unfold isFileMatch at hm
   simp only [List.any_cons, List.any_nil, Bool.or_false, Bool.and_eq_true, beq_iff_eq] at hm
   have hn : nibsOf stSubDirEntry nm = 0xD * 16 + nm.length := by
     unfold nibsOf stSubDirEntry; omega
   have he0 : x.1.getD 0 0 = 0xD * 16 + nm.length := by
     have := hm.1; rw [hn] at this; exact this.symm
-  rcases hroot.slots x hx with h0 | ⟨hst, _⟩
-  · rw [h0] at he0; omega
-  · rw [he0] at hst; omega
+  exact ⟨by rw [he0]; omega, he0⟩
 
 theorem attempt_err {α : Type} (m : M α) (d d' : Disk) (e : Err) (h : m d = (.error e, d')) (he : e ≠ .panic) :
     M.attempt m d = (.ok none, d') := by
   unfold M.attempt; rw [h]
   cases e <;> first | rfl | exact absurd rfl he
 
-/-- in a volume without sub-directories `find_dir_key_block` of a path into the volume directory answers `PATH NOT FOUND` -/
-theorem findDirKeyBlock_flat {d : Disk} {bm cnt : Nat} {ch : List Nat} (c : RootCtx d bm cnt ch) (hroot : Root d.raw ch) (path nm : Bytes)
+/-- `find_dir_key_block` of a path into the volume directory that names no sub-directory answers `PATH NOT FOUND` -/
+theorem findDirKeyBlock_nodir {d : Disk} {bm cnt : Nat} {ch : List Nat} (c : RootCtx d bm cnt ch) (path nm : Bytes)
     (hnodes : normalizePath (volName (hdrOf d.raw)) path = .ok [volName (hdrOf d.raw), nm]) (hnm : nm ≠ [])
-    (hnv : NotVol (volName (hdrOf d.raw)) path) : findDirKeyBlock path d = (.error .pathNotFound, d) := by
-  by_cases hl : nm.length ≤ 15
-  · exact findDirKeyBlock_root c path nm hnodes hnm hnv (no_dir_hit hroot nm hl)
-  · have hinv : isNameValid nm = false := by
-      cases hvv : isNameValid nm with
-      | false => rfl
-      | true => exact absurd (isNameValid_len nm hvv).2 hl
+    (hnv : NotVol (volName (hdrOf d.raw)) path)
+    (hnone : isNameValid nm = true → (dirSlots d.raw 2 ch).find? (isHit [stSubDirEntry] nm) = none) :
+    findDirKeyBlock path d = (.error .pathNotFound, d) := by
+  cases hvv : isNameValid nm with
+  | true => exact findDirKeyBlock_root c path nm hnodes hnm hnv (hnone hvv)
+  | false =>
     unfold findDirKeyBlock
     simp only [bind_def]
     rw [bind_ok _ _ d d _ (getVolHeader_root c)]
@@ -187,7 +179,7 @@ theorem findDirKeyBlock_flat {d : Disk} {bm cnt : Nat} {ch : List Nat} (c : Root
     simp only [hnv, ↓reduceIte]
     have hs := searchVolume_root c [stSubDirEntry] path nm hnodes hnm
     unfold rootSearch at hs
-    rw [hinv] at hs
+    rw [hvv] at hs
     simp only [Bool.not_false, ↓reduceIte] at hs
     rw [bind_ok _ _ d d _ (attempt_err _ d d _ hs (by decide))]
     rfl
